@@ -424,6 +424,7 @@ type delegateRec struct {
 	Meta       []byte
 	Msgs       [][]byte
 	Bcasts     [][]byte // handed out on GetBroadcasts (all that fit)
+	Chatter    []byte   // if set, handed out on every GetBroadcasts call
 	GaveOut    [][]byte
 	Local      []byte
 	LocalDelay time.Duration // the next LocalState call takes this long
@@ -454,6 +455,9 @@ func (d *delegateRec) GetBroadcasts(overhead, limit int) [][]byte {
 		}
 	}
 	d.Bcasts = rest
+	if d.Chatter != nil && used+overhead+len(d.Chatter) <= limit {
+		out = append(out, d.Chatter) // an application that always has something to say
+	}
 	d.GaveOut = append(d.GaveOut, out...)
 	return out
 }
